@@ -36,6 +36,23 @@ Theorem C19_no_deadlock : forall avail init s ts, inv init (s, ts) -> existsb (f
 Proof. exact progress. Qed.
 Print Assumptions C19_no_deadlock.
 
+(* concurrent = sequential: in every reachable world with the lock free the global state is the initial one, so the
+   __enter__ of any thread decides and installs exactly what it does in a sequential run; and while a thread is inside
+   its locale block no step of any other thread changes the lock or LC_COLLATE: the body of a block sees the same
+   locale in every interleaving *)
+Theorem C19_concurrent_as_sequential : forall avail init sched ts0 c,
+  Forall (fun t => match t with Idle _ => True | _ => False end) ts0 ->
+  forall w, w = run avail sched (mkg false init, ts0) ->
+  (locked (fst w) = false -> enter avail c (fst w) = enter avail c (mkg false init)) /\
+  (forall t s' t', In t (snd w) -> tstep avail (fst w) t = Some (s', t') -> locked (fst w) = true -> inside t = false -> s' = fst w).
+Proof.
+  intros avail init sched ts0 c H w Hw. pose proof (C19_mutex avail init sched ts0 H) as I. rewrite <- Hw in I. destruct w as [s ts]. cbn [fst snd].
+  split.
+  - intros L. eapply enter_as_sequential; eauto.
+  - intros t s' t' _ Ht L In_. eapply others_do_not_disturb; eauto.
+Qed.
+Print Assumptions C19_concurrent_as_sequential.
+
 Example C19_nonvacuous :
   let avail := fun l => Nat.eqb l 3 in
   run avail [0; 1; 1; 0; 0; 1; 1; 0; 1] (mkg false 9, [Idle [Loc 3 false; Loc 5 true]; Idle [NoLocale; Loc 3 true]])
